@@ -138,6 +138,9 @@ def check(run):
         ok = types.get(attr) == klass
         run.ob("C23.R3", "%s:subdb-class:%s" % (sub.fq, attr), ok, run.site(sub), "" if ok else "Subery.%s is a %s, expected %s" % (attr, types.get(attr), klass))
     run.floor("C23.R3", 6)
+    # R5 the durable writers keep insertion order: next ordinal = last stored ordinal + 1
+    from .c24 import ordinal_obs
+    ordinal_obs(run, "C23.R5")
 
 
 def _anc(n):
@@ -157,5 +160,6 @@ MUTANTS = [
     Mutant("sync-without-clear", DQ, "Durq.sync", "                self._deq.clear()\n", "", {"C23.R4"}),
     Mutant("add-not-durable-guarded", DS, "Dusq.add", "        if self.durable:\n            self._stale = False\n            return self._sdb.add(keys=self._key, val=val)\n        return None", "        self._stale = False\n        return self._sdb.add(keys=self._key, val=val)", {"C23.R2"}),
     Mutant("update-put-not-checked", DS, "Dusq.update", "            if self.put(vals) is False:  # durable unique update but put failed\n                raise HierError(f\"Mismatch between cache and durable at \"\n                                f\"key={self._key}\")\n", "            self.put(vals)\n", {"C23.R2"}),
+    Mutant("set-ordinal-by-count", DU, "Duror.putIoSetVals", "ion = cion + 1  # ion to add at is increment of cion", "ion += 1", {"C23.R5"}),
     Mutant("silent-early-return-push", DQ, "Durq.push", "        if val is not None:\n", "        if not (val is None):\n", silent=True),
 ]
